@@ -1097,6 +1097,21 @@ def one_case(ctx, case, label="gen", flags=None, deep=True, real=False):
         fail("C15-shared-parameter-freed", f"the free-parameter analysis holds {n_free_held} free parameters, "
              "far more than were declared for it")
         return
+    # the same analysis asked twice about ONE model object that is edited in place in between (a second fit after the
+    # user changed the model): the fitted model follows the model as it is now
+    try:
+        import copy as _copy
+        probe = _copy.deepcopy(model)
+        n_first = int(combined.modify_model(probe).prior_count)
+        probe.c15_extra_parameter = af.UniformPrior(lower_limit=0.0, upper_limit=1.0)
+        n_second = int(combined.modify_model(probe).prior_count)
+        ctx.hit("modify-model-twice")
+        if n_second <= n_first and not own_models:  # (analyses given their own model do not look at the fitted model)
+            fail("C15-fitted-model-ignores-edit", "modify_model on a model object that gained a parameter since the analysis was first asked "
+                 "returns a model without it", {"first": n_first, "second": n_second})
+            return
+    except Exception as e:  # noqa: what modify_model does on the model as composed is examined below
+        ctx.hit("modify-model-twice-raised:" + type(e).__name__)
     try:
         fitted = combined.modify_model(model)
     except Exception as e:
